@@ -305,14 +305,11 @@ func c16bOracle(r *e4Result) string {
 			}
 		}
 	}
-	// per connection callback log
-	for _, bc := range r.Conns {
-		bc.stMu.Lock()
-		st := append([]vStateEv{}, bc.states...)
-		bc.stMu.Unlock()
+	// per connection callback log, as it was when the run ended (before the harness tore it down)
+	for _, ce := range r.ConnEnd {
 		nActive, nClosed, nDisc := 0, 0, 0
 		var closedErr error
-		for _, s := range st {
+		for _, s := range ce.States {
 			switch s.State {
 			case StateActive:
 				nActive++
@@ -324,22 +321,17 @@ func c16bOracle(r *e4Result) string {
 			}
 		}
 		if nActive > 1 {
-			return fmt.Sprintf("connection c%d: Active reported %d times", bc.id, nActive)
+			return fmt.Sprintf("connection c%d: Active reported %d times", ce.ID, nActive)
 		}
 		if nClosed > 1 || nDisc > 1 {
-			return fmt.Sprintf("connection c%d: Closed reported %d times, Disconnected %d times", bc.id, nClosed, nDisc)
+			return fmt.Sprintf("connection c%d: Closed reported %d times, Disconnected %d times", ce.ID, nClosed, nDisc)
 		}
 		if nClosed == 1 && closedErr == nil {
-			return fmt.Sprintf("connection c%d: Closed reported with a nil error", bc.id)
+			return fmt.Sprintf("connection c%d: Closed reported with a nil error", ce.ID)
 		}
-		lc, pc := bc.mc.isClosed()
-		if (lc || pc) && nDisc == 0 && nClosed == 0 && bc.connected {
-			// the connection ended without Disconnect: Closed must (eventually) be reported; it is reported before Done closes
-			select {
-			case <-bc.cli.Done():
-				return fmt.Sprintf("connection c%d ended (Done closed) without Disconnect but Closed was never reported", bc.id)
-			default:
-			}
+		if ce.DoneClosed && nDisc == 0 && nClosed == 0 && ce.Connected {
+			// the connection ended without Disconnect: Closed is reported before Done() closes
+			return fmt.Sprintf("connection c%d ended (Done closed) without Disconnect but Closed was never reported", ce.ID)
 		}
 	}
 	if r.Stuck {
